@@ -16,7 +16,7 @@ import types
 
 from harness.engine import Prop
 
-CATS = ['Op', 'OpB', 'Op_x', 'O']          # prefix-related on purpose
+CATS = ['Op', 'OpB', 'Op_x', 'O', 'Batch[Order]', 'svc:op.v2']          # prefix-related on purpose; shell / path metacharacters
 PLAYER_ERROR = '<player error>'
 
 
@@ -222,21 +222,28 @@ class C19(Prop):
                 for k in names:
                     out |= set(cassette.iter_recording_ids(k))
                 return out
+            # (the ids are taken from the cassette's create_new_recording itself, not from a lookup: lookups are under test)
+            created = []
+            real_create = cassette.create_new_recording
+
+            def create_and_note(category):
+                r = real_create(category)
+                created.append(r.id)
+                return r
+            cassette.create_new_recording = create_and_note
             ids = []
-            known = listing()
             for cat, value, inc in case['recs']:
                 o = classes[cat]()
                 o.v, o.interrupt = value, inc
+                n0 = len(created)
                 try:
                     o.execute()
                 except Interrupt:
                     pass
-                now = listing()
-                new = now - known
-                if len(new) != 1:
-                    raise RuntimeError('recording an operation of %s created %d recordings' % (cat, len(new)))
-                ids.append(new.pop())
-                known = now
+                if len(created) - n0 != 1:
+                    raise RuntimeError('recording an operation of %s created %d recordings' % (cat, len(created) - n0))
+                ids.append(created[-1])
+            del cassette.create_new_recording
             # some recordings are fetched, annotated and saved again under their id before the studio runs
             for i in case.get('resave', []):
                 if i < len(ids):
